@@ -166,8 +166,15 @@ def close(x, y):
 
 
 def expected(s):
-    """-> ('value', float) | ('zerodiv',) | ('malformed',) | ('unspecified', reason)"""
+    """-> ('value', float) | ('zerodiv',) | ('malformed',) | ('unspecified', reason) | ('dot', expectation-with-the-dot-dropped)
+    A number with a trailing dot (`1.`) is not in the grammar; whether it is rejected or read as `1` is left open, but nothing
+    else is acceptable: ('dot', e) means "parse error, or exactly outcome e"."""
     r = parse(s)
+    if r == ('unspecified', 'number with trailing dot'):
+        import re
+        s2 = re.sub(r'(\d)\.(?!\d)', r'\1', s)
+        e = expected(s2)
+        return ('dot', e) if e[0] in ('value', 'zerodiv', 'malformed') else e
     if r[0] != 'ok':
         return r
     try:
